@@ -60,7 +60,9 @@ def generate(seed, mode="c18", opts=None):
         elif k == "add_conflict":
             ops.append(["add_conflict", name, ch.pick(NAMES, "n2"), kind, width])
         elif k == "elaborate":
-            ops.append(["elaborate"])
+            # (half of the time the first attempt is made together with a nameless module, which the
+            # last pass refuses - after it has been through the edited module)
+            ops.append(["elaborate", ch.chance(1, 2)])
             elaborated = True
     sched = [ch.pick(seams.POLICIES, "policy"), 0]
     # the class-style twin of the final content: some values already carry a name (their key's or
@@ -233,6 +235,12 @@ def execute(scn):
                     if got is not want:
                         fail("get", f"op {k}: get({op[1]!r}) returned the wrong object")
             elif kind == "elaborate":
+                if len(op) > 1 and op[1]:
+                    try:
+                        h.elaborate([obj, h.Module()])
+                        probe("nameless_sibling_accepted")
+                    except Exception:  # noqa
+                        probe("first_elaboration_failed_on_nameless_sibling")
                 h.elaborate(obj)
                 elaborated = True
                 probe("elaborated_mid_history")
